@@ -57,7 +57,7 @@ type c02Query struct {
 
 func init() {
 	Register(&Prop{
-		ID: "C02", Engine: "A", Quick: 3000, Thorough: 300000, Level: "exploration",
+		ID: "C02", Engine: "A", Quick: 6000, Thorough: 300000, Level: "exploration",
 		Rule: "each run = handshake + 1..3 queries with drawn fields (id empty or given, body empty/long/non-UTF-8, connection- and query-level settings with flags, parameters, secret, quota key, initial user, span context, external data with/without a table name, input columns of drawn types with 0..4 callback rounds) against a fault-free reference server, at a drawn revision pair and compression mode, under a seeded goroutine and delivery schedule; oracle = the whole client byte stream parsed by the independent codec must be exactly the expected packet sequence with the expected field values and block contents, with zero trailing bytes; distinct = schedule digests; non-trivial = at least one query with settings, parameters, external data or input blocks",
 		Run:  runC02,
 	})
